@@ -323,8 +323,8 @@ class Parser:
             if not (math or tok.txt in self.unknowns):
                 self.unknowns.append(tok.txt)
             return [defs.ActionToken(tok.pos)] + lang_toks
-        return (self.expand_arguments(buf, self.the_macros[tok.txt], tok.pos)
-                    + lang_toks)
+        return (self.expand_arguments(buf, self.the_macros[tok.txt], tok.pos,
+                                        math) + lang_toks)
 
     #   skip space like Buffer.skip_space(), but return the skipped language
     #   switches: they must not get lost together with the space
@@ -341,7 +341,7 @@ class Parser:
     #   expand arguments for "normal" macro or \begin of environment
     #   Return: tokens to be inserted
     #
-    def expand_arguments(self, buf, mac, start):
+    def expand_arguments(self, buf, mac, start, math=False):
         arguments = []
         arguments_extr = []
         delimiters = []
@@ -395,7 +395,14 @@ class Parser:
             self.extracted.append(self.expand_sequence(scanner.Buffer(toks)))
         out = [defs.ActionToken(start)]
         if callable(mac.repl):
-            return out + mac.repl(self, buf, mac, arguments, delimiters, start)
+            known = len(self.unknowns)
+            toks = mac.repl(self, buf, mac, arguments, delimiters, start)
+            if math:
+                # the handler may have evaluated an argument in text mode,
+                # e.g., \phantom{\sum}: unknown names used there are used
+                # inside of maths
+                del self.unknowns[known:]
+            return out + toks
         return out + self.generate_replacements(arguments, mac.repl, start)
 
     def generate_replacements(self, arguments, repls, start):
